@@ -192,6 +192,45 @@ theorem variance_eq_estimator (slots : List Slot) :
   | some mu =>
     simp only [accum_eq, aux_fold_w2, aux_fold_wd2, zero_add, count_eq]
 
+theorem aux_sq_ge (ss : List Slot) (hw : ∀ s ∈ ss, 0 ≤ s.w) : sumW2 ss ≤ sumW ss ^ 2 ∧ 0 ≤ sumW ss := by
+  induction ss with
+  | nil => simp [sumW, sumW2]
+  | cons s ss ih =>
+    have h1 := hw s List.mem_cons_self
+    have ⟨h2, h3⟩ := ih (fun t ht => hw t (List.mem_cons_of_mem _ ht))
+    simp only [sumW, sumW2, List.map_cons, List.sum_cons] at h2 h3 ⊢
+    constructor
+    · nlinarith [mul_nonneg h1 h3]
+    · linarith
+
+theorem aux_wd2_nonneg (mu : Rat) (ss : List Slot) (hw : ∀ s ∈ ss, 0 ≤ s.w) : 0 ≤ sumWD2 mu ss := by
+  induction ss with
+  | nil => simp [sumWD2]
+  | cons s ss ih =>
+    have h1 := hw s List.mem_cons_self
+    have h2 := ih (fun t ht => hw t (List.mem_cons_of_mem _ ht))
+    simp only [sumWD2, List.map_cons, List.sum_cons] at h2 ⊢
+    have := mul_nonneg h1 (sq_nonneg (s.x - mu))
+    linarith
+
+/-- **the standard deviation is a real number**: with non-negative weights the estimator's radicand is never negative, so wherever
+the variance is defined its square root is (no NaN out of `sqrt` of a negative number) -/
+theorem variance_nonneg (slots : List Slot) (hw : ∀ s ∈ liveSlots slots, 0 ≤ s.w) (v : Rat) (h : variance slots = some v) : 0 ≤ v := by
+  rw [variance_eq_estimator] at h
+  cases hwt : weighted slots with
+  | none => rw [hwt] at h; cases h
+  | some mu =>
+    rw [hwt] at h
+    simp only at h
+    split at h
+    · rename_i hc
+      simp only [Option.some.injEq] at h
+      subst h
+      have ⟨h2, h3⟩ := aux_sq_ge _ hw
+      have hd : 0 < sumW (liveSlots slots) ^ 2 - sumW2 (liveSlots slots) := lt_of_le_of_ne (by linarith) (Ne.symm hc.2)
+      exact mul_nonneg (div_nonneg h3 hd.le) (aux_wd2_nonneg mu _ hw)
+    · cases h
+
 /-! non-vacuity -/
 example : weighted [⟨true, 1, 4⟩, ⟨false, 5, 100⟩, ⟨true, 3, 8⟩] = some 7 := by decide +kernel
 example : count [⟨true, 1, 4⟩, ⟨false, 5, 100⟩, ⟨true, 3, 8⟩] = 2 := by decide
